@@ -38,6 +38,7 @@ Fixpoint ref_run_t (fuel : nat) (s : cpu) (sync : Z) (t : tmr) (q : list Z) : op
     let one : option (option (cpu * Z * bool)) :=
       if is_mes_call s then
         (if dom_mes s then Some (option_map (fun s' => (s', mes_charge s, false)) (mes_ref s)) else None)
+      else if fetch_faults s then Some None
       else
         match ref_decode s with
         | Some (IUnimplemented, len) => if code_ok s len then Some None else None
